@@ -127,6 +127,10 @@ pub struct World {
     /// keep the future of a caller that has resolved until it is released explicitly (as
     /// `join!` / `select!` loops do); default: drop it right after it resolves
     pub retain_done: bool,
+    /// the next poll_caller happens in a task tick whose cooperative budget is already used up
+    /// (the task did other ready work first): tokio's own primitives then answer Pending
+    /// without looking at their state. Reset by that poll.
+    pub starve_next_poll: bool,
     /// ticks taken although a woken caller had not been polled (late-poll deviations)
     pub late_ticks: usize,
     root: Arc<RootWake>,
@@ -198,6 +202,7 @@ impl World {
             log: Vec::new(),
             trace: false,
             retain_done: false,
+            starve_next_poll: false,
             late_ticks: 0,
             root,
             holder: RtHolder { guard: Some(guard), rt: Some(rt) },
@@ -321,7 +326,25 @@ impl World {
         // the runtime's (fixed) seed generator; outside it `select!` would pick its start
         // branch from a randomly seeded thread-local generator.
         let rt = self.holder.rt.as_ref().unwrap();
-        let r = rt.block_on(std::future::poll_fn(|_| Poll::Ready(catch_unwind(AssertUnwindSafe(|| fut.as_mut().poll(&mut cx))))));
+        let starve = std::mem::replace(&mut self.starve_next_poll, false);
+        let r = rt.block_on(std::future::poll_fn(|_| {
+            if starve {
+                // (bounded: block_on installs a budget of 128)
+                for _ in 0..256 {
+                    match tokio::task::coop::poll_proceed(&mut cx) {
+                        Poll::Ready(step) => step.made_progress(),
+                        Poll::Pending => break,
+                    }
+                }
+            }
+            let r = catch_unwind(AssertUnwindSafe(|| fut.as_mut().poll(&mut cx)));
+            // A tokio primitive that finds the budget used up answers Pending and *defers* a
+            // wake-up of the task to the scheduler, which delivers it as soon as the task has
+            // yielded. This block_on ends with the poll, and its deferred wake-ups with it: the
+            // harness delivers the wake-up itself.
+            Poll::Ready((r, !tokio::task::coop::has_budget_remaining()))
+        }));
+        let (r, budget_used_up) = r;
         let res = match r {
             Ok(Poll::Pending) => PollResult::Pending,
             Ok(Poll::Ready(o)) => {
@@ -344,6 +367,10 @@ impl World {
         }
         let cl = &mut self.callers[c];
         cl.wakes_at_last_poll_end = cl.wake_count();
+        if budget_used_up && cl.is_live() {
+            // (delivered after the poll, as the scheduler would: it counts as a new wake-up)
+            waker.wake_by_ref();
+        }
         self.note(format!("poll c{c} -> {:?}", res));
         self.settle();
         res
